@@ -15,7 +15,7 @@ SUITE_PROPS = ("C01", "C02", "C03", "C07", "C09", "C10", "C14", "C15", "C16")  #
 class Ctx:
     def __init__(self, prop, tier, seed, shard, nshards, out):
         self.prop, self.tier, self.seed, self.shard, self.nshards = prop, tier, seed, shard, nshards
-        self._fh = open(out, "w", encoding="utf-8")
+        self._fh = open(out, "w", encoding="utf-8", errors="backslashreplace")
         self._nsamples = 0
         self._ctr = {}
         self._nviol = {}
